@@ -38,6 +38,10 @@ func main() {
 		c34gen(os.Args[2])
 	case "c34":
 		c34run(os.Args[2], os.Args[3])
+	case "c35histgen":
+		c35histgen(os.Args[2])
+	case "c35hist":
+		c35hist(os.Args[2], os.Args[3])
 	case "c35":
 		cp := ""
 		if len(os.Args) > 3 {
